@@ -202,6 +202,17 @@ impl<'a, T: ColumnProvider> ExpressionExecutionEngine<'a, T> {
                         continue;
                     }
 
+                    // The same text <-> timestamp coercion as in x = value
+                    let (executed_operand, expected_value) = match (&executed_operand, &expected_value) {
+                        (Value::Timestamp(_), Value::String(value)) => {
+                            (executed_operand.clone(), ValueType::Timestamp.parse(&value).ok_or(EvaluationError::FailedToParseTimestamp)?)
+                        }
+                        (Value::String(value), Value::Timestamp(_)) => {
+                            (ValueType::Timestamp.parse(&value).ok_or(EvaluationError::FailedToParseTimestamp)?, expected_value.clone())
+                        }
+                        _ => (executed_operand.clone(), expected_value)
+                    };
+
                     if compare_values(&executed_operand, &expected_value)? == Ordering::Equal {
                         return Ok(Value::Bool(!is_not));
                     }
